@@ -277,6 +277,17 @@ fn main() {
                 n += 1;
             }
             let mut extra: Vec<String> = Vec::new();
+            // ilog at exact power thresholds for every base up to 2000 (two formulas for the same quotient disagree at a
+            // sparse set of bases)
+            for k in 2..=2000u64 {
+                for ev in [api::Ev::Num, api::Ev::F64] {
+                    extra.push(format!("{}\t{}\t{}", ev.name(), api::Val::default_for(ev).enc(), serde_json::to_string(&format!("ilog({},{})", k * k, k)).unwrap()));
+                    if k <= 200 {
+                        extra.push(format!("{}\t{}\t{}", ev.name(), api::Val::default_for(ev).enc(), serde_json::to_string(&format!("ilog({},{})", k * k * k, k)).unwrap()));
+                        extra.push(format!("{}\t{}\t{}", ev.name(), api::Val::default_for(ev).enc(), serde_json::to_string(&format!("log({},{})", k * k, k)).unwrap()));
+                    }
+                }
+            }
             // the placeholder in every representation and magnitude for a few @ forms (conversions of the placeholder at the
             // public boundary may depend on the build)
             for form in ["@", "@+1", "@*3", "@%7", "-@", "@/2", "@^2", "max(@,1)", "floor(@)", "2*@-@"] {
